@@ -15,15 +15,24 @@ Fixpoint listed (v : pyval) : bool :=
   | _ => true
   end.
 
+Lemma std_lit_top_nested : forall v, untyped_ok v = true -> std_lit_top v = std_lit_nested v.
+Proof. destruct v; try reflexivity. destruct f; try reflexivity. intro H; discriminate. Qed.
+
 Section Main.
   Variable ich : chain ikind.
   Variable lch : chain lact.
   Variable fch : chain fact.
   Variable vch : chain vact.
   Variable tbl : list (string * string).
+  Variable floats_via_lit : bool.     (* createDataFrame writes float cells through Column._lit *)
+  Variable first_non_none : bool.     (* createDataFrame samples the first value that is not None *)
 
   Definition facts_ok : bool :=
-    infer_chain_ok ich && lit_chain_ok lch && litfn_chain_ok fch && tovalue_chain_ok vch && mapping_ok tbl.
+    infer_chain_ok ich && lit_chain_ok lch && litfn_chain_ok fch && tovalue_chain_ok vch && mapping_ok tbl
+    && floats_via_lit && first_non_none.
+
+  Definition sample (vs : list pyval) : option pyval :=
+    if first_non_none then find (fun v => match v with PNone => false | _ => true end) vs else hd_error vs.
 
   (** the whole property *)
   Definition full : Prop :=
@@ -33,14 +42,16 @@ Section Main.
                    lex_stmt (render ps) = Some (toks ps))
     (* values: for every environment that behaves as assumed, every column of listed values *)
     /\ (forall eleaf cleaf pleaf round32, env_ok eleaf cleaf pleaf ->
-        let P := col_pipeline eleaf cleaf pleaf round32 lch fch vch in
+        let C := col_pipeline eleaf cleaf pleaf round32 (cell_lit lch fch floats_via_lit) vch in
+        let S := col_pipeline eleaf cleaf pleaf round32 (lit_top lch fch) vch in
         (* declared schema *)
-        (forall t vs, forallb (fun v => listed v && fits v t) vs = true -> P (Some t) vs = map (fun v => Some (expected v)) vs)
-        (* inferred schema: the column type comes from the first row *)
-        /\ (forall v0 vs, forallb listed (v0 :: vs) = true -> (forall t, std_infer v0 = Some t -> forallb (fun v => fits v t) vs = true) ->
-                          P (infer ich v0) (v0 :: vs) = map (fun v => Some (expected v)) (v0 :: vs))
+        (forall t vs, forallb (fun v => listed v && fits v t) vs = true -> C (Some t) vs = map (fun v => Some (expected v)) vs)
+        (* inferred schema: the column type comes from the sampled value *)
+        /\ (forall vs, forallb listed vs = true ->
+                       (forall v0 t, sample vs = Some v0 -> std_infer v0 = Some t -> forallb (fun v => fits v t) vs = true) ->
+                       C (match sample vs with Some v0 => infer ich v0 | None => None end) vs = map (fun v => Some (expected v)) vs)
         (* lit() in select() *)
-        /\ (forall v, listed v = true -> P None [v] = [Some (expected v)]))
+        /\ (forall v, listed v = true -> S None [v] = [Some (expected v)]))
     (* df.schema *)
     /\ (forall t, to_spark tbl (env_report t) = Some (report_expected t)).
 
@@ -55,46 +66,53 @@ Section Main.
           exists ta tb, lex_stmt (render a) = Some ta /\ lex_stmt (render b) = Some tb /\ skeleton ta = skeleton tb)
     /\ (forall v t, uniform v = true -> infer ich v = Some t -> fits v t = true)
     /\ (forall eleaf cleaf pleaf round32, env_ok eleaf cleaf pleaf ->
-        let P := col_pipeline eleaf cleaf pleaf round32 lch fch vch in
-        (forall t vs, forallb (col_member t) vs = true -> P (Some t) vs = map (fun v => Some (expected v)) vs)
-        /\ (forall v0 t vs, uniform v0 = true -> supported v0 = true -> nanfree v0 = true -> infer ich v0 = Some t ->
+        let C := col_pipeline eleaf cleaf pleaf round32 (cell_lit lch fch floats_via_lit) vch in
+        let S := col_pipeline eleaf cleaf pleaf round32 (lit_top lch fch) vch in
+        (forall t vs, forallb (col_member t) vs = true -> C (Some t) vs = map (fun v => Some (expected v)) vs)
+        /\ (forall vs v0 t, sample vs = Some v0 -> uniform v0 = true -> infer ich v0 = Some t ->
                             forallb (col_member t) vs = true ->
-                            P (infer ich v0) (v0 :: vs) = map (fun v => Some (expected v)) (v0 :: vs))
-        /\ (forall vs, forallb plainv vs = true -> P None vs = map (fun v => Some (expected v)) vs)
-        /\ (forall v, untyped_ok v = true -> P None [v] = [Some (expected v)]))
+                            C (match sample vs with Some v0 => infer ich v0 | None => None end) vs
+                            = map (fun v => Some (expected v)) vs)
+        /\ (forall vs, forallb supp vs = true -> C None vs = map (fun v => Some (expected v)) vs)
+        /\ (forall v, untyped_ok v = true -> S None [v] = [Some (expected v)]))
     /\ (forall t, to_spark tbl (env_report t) = Some (report_expected t)).
 
   Theorem partial_holds : facts_ok = true -> partial.
   Proof.
     unfold facts_ok. intro H.
+    apply andb_true_iff in H. destruct H as [H Hsn]. apply andb_true_iff in H. destruct H as [H Hfl].
     apply andb_true_iff in H. destruct H as [H Hm]. apply andb_true_iff in H. destruct H as [H Hv].
     apply andb_true_iff in H. destruct H as [H Hf]. apply andb_true_iff in H. destruct H as [Hi Hl].
-    unfold partial.
+    unfold partial, sample. rewrite Hfl, Hsn. clear Hfl Hsn.
     split; [exact string_roundtrip|]. split; [exact ident_roundtrip|]. split; [exact stmt_roundtrip|].
     split; [exact structure_independent|]. split; [exact (infer_type_sound ich Hi)|].
     split; [|exact (schema_reports_declared tbl Hm)].
-    intros eleaf cleaf pleaf round32 ENV. cbv zeta. split; [|split; [|split]].
-    - exact (column_roundtrip _ _ _ round32 ENV lch fch vch Hl Hf Hv).
-    - intros v0 t vs Hu Hs Hn Hinf Hvs. rewrite Hinf.
-      apply (column_roundtrip _ _ _ round32 ENV lch fch vch Hl Hf Hv).
-      cbn [forallb]. rewrite Hvs. unfold col_member. rewrite Hs, Hn, (infer_type_sound ich Hi v0 t Hu Hinf). reflexivity.
-    - exact (column_untyped _ _ _ round32 ENV lch fch vch Hl Hf Hv).
-    - exact (lit_select_roundtrip _ _ _ round32 ENV lch fch vch Hl Hf Hv).
+    intros eleaf cleaf pleaf round32 ENV. cbv zeta.
+    assert (HC : forall vs v, In v vs -> cell_lit lch fch true v = std_lit_nested v)
+      by (intros; apply cell_lit_is_std; assumption).
+    split; [|split; [|split]].
+    - intros t vs Hvs. exact (column_roundtrip _ _ _ round32 ENV _ vch Hv t vs (HC vs) Hvs).
+    - intros vs v0 t Hs Hu Hinf Hvs. rewrite Hs, Hinf.
+      exact (column_roundtrip _ _ _ round32 ENV _ vch Hv t vs (HC vs) Hvs).
+    - intros vs Hvs. exact (column_untyped _ _ _ round32 ENV _ vch Hv vs (HC vs) Hvs).
+    - intros v Hu. apply (column_untyped _ _ _ round32 ENV _ vch Hv [v]).
+      + intros v' [E|[]]. subst v'. rewrite (lit_top_is_std lch fch Hl Hf). apply std_lit_top_nested. exact Hu.
+      + cbn [forallb]. rewrite andb_true_r. destruct v; try exact Hu. reflexivity.
   Qed.
 End Main.
 
 (** non-vacuity: a nested value with every leaf kind, adversarial string content included, is in the domain *)
 Definition sample_value : pyval :=
   PRow [([97]%N, PList [PStr [39; 39; 92; 45; 45; 47; 42; 10; 128512]%N; PNone; PStr []]);
-        ([98]%N, PRow [([120]%N, PInt (-9223372036854775808)); ([121]%N, PFloat (FFin 4607182418800017408 false));
+        ([98]%N, PRow [([120]%N, PInt (-9223372036854775808)); ([121]%N, PFloat FNaN); ([104]%N, PList [PFloat (FInf true); PFloat (FFin 4607182418800017408 false)]);
                        ([122]%N, PList [PFloat (FFin 4609434218613702656 false)])]);
         ([99]%N, PList [PList [PBool true]; PList [PBool false; PNone]]); ([103]%N, PBytes [0; 39; 255]%N);
         ([100]%N, PList [PDate 1; PNone]); ([101]%N, PTs 0 (Some 120%Z)); ([102]%N, PTs (-1) None)].
 
 Example sample_in_domain :
-  supported sample_value = true /\ uniform sample_value = true /\ nanfree (expected sample_value) = true /\
+  supp sample_value = true /\ uniform sample_value = true /\
   exists t, std_infer sample_value = Some t /\ fits sample_value t = true.
 Proof.
-  split; [vm_compute; reflexivity|]. split; [vm_compute; reflexivity|]. split; [vm_compute; reflexivity|].
+  split; [vm_compute; reflexivity|]. split; [vm_compute; reflexivity|].
   eexists. split; [vm_compute; reflexivity|vm_compute; reflexivity].
 Qed.
